@@ -144,6 +144,20 @@ fn binary_of(name: &str) -> Binary {
     }
 }
 
+/// the registry of extern functions the specification fixes (Expr.tla, Extern)
+pub fn registry() -> HashMap<String, biscuit_auth::datalog::ExternFunc> {
+    use biscuit_auth::builder::Term as BT;
+    use biscuit_auth::datalog::ExternFunc;
+    use std::sync::Arc;
+    let mut m = HashMap::new();
+    m.insert("id".to_string(), ExternFunc::new(Arc::new(|a: BT, _b: Option<BT>| Ok(a))));
+    m.insert("second".to_string(), ExternFunc::new(Arc::new(|_a: BT, b: Option<BT>| b.ok_or_else(|| "one argument".to_string()))));
+    m.insert("fail".to_string(), ExternFunc::new(Arc::new(|_a: BT, _b: Option<BT>| Err("fails".to_string()))));
+    m.insert("sym".to_string(), ExternFunc::new(Arc::new(|_a: BT, _b: Option<BT>| Ok(BT::Str("read".to_string())))));
+    m.insert("isint".to_string(), ExternFunc::new(Arc::new(|a: BT, _b: Option<BT>| Ok(BT::Bool(matches!(a, BT::Integer(_)))))));
+    m
+}
+
 fn ops_of(v: &Value, syms: &mut SymbolTable) -> Vec<Op> {
     v.as_array()
         .unwrap()
@@ -151,6 +165,8 @@ fn ops_of(v: &Value, syms: &mut SymbolTable) -> Vec<Op> {
         .map(|o| match o["o"].as_str().unwrap() {
             "val" => Op::Value(term_of(&o["v"], syms)),
             "var" => Op::Value(Term::Variable(var_id(o["n"].as_str().unwrap(), syms))),
+            "un" if o["op"] == "Ffi" => Op::Unary(Unary::Ffi(syms.insert(o["f"].as_str().unwrap()))),
+            "bin" if o["op"] == "Ffi" => Op::Binary(Binary::Ffi(syms.insert(o["f"].as_str().unwrap()))),
             "un" => Op::Unary(unary_of(o["op"].as_str().unwrap())),
             "bin" => Op::Binary(binary_of(o["op"].as_str().unwrap())),
             "clo" => Op::Closure(
@@ -176,7 +192,7 @@ fn replay_case(idx: usize, case: &Value) -> Value {
         }
         let e = Expression { ops };
         let mut tmp = TemporarySymbolTable::new(&syms);
-        let r = e.evaluate(&env, &mut tmp, &HashMap::new());
+        let r = e.evaluate(&env, &mut tmp, &registry());
         match r {
             Ok(t) => (json!("ok"), value_of(&t, &tmp)),
             Err(e) => (json!(format!("{e:?}")), json!({"t": "ERR"})),
